@@ -85,6 +85,14 @@ static OpInfo parse_op(const std::string& op, TypeId t)
         size_t b = op.find("_as_") + 4, e = op.rfind('_');
         o.mem = type_from_name(op.substr(b, e - b));
     }
+    else if (op.rfind("gather_as_", 0) == 0 || op.rfind("scatter_as_", 0) == 0)
+    {
+        o.kind = op[0] == 'g' ? OpInfo::GATHER : OpInfo::SCATTER;
+        size_t b = op.find("_as_") + 4, e = op.rfind('_');
+        o.mem = type_from_name(op.substr(b, e - b));
+        o.idx_signed = true;
+        o.aligned = false;
+    }
     else if (op.rfind("load_", 0) == 0)
         o.kind = OpInfo::LOAD;
     else if (op.rfind("store_", 0) == 0)
@@ -291,7 +299,7 @@ static bool far_setup()
 }
 static bool is_far_case(const MemCase& c, int rb)
 {
-    if (c.payload == 9) // the extreme-index class marks its cases (small unsigned 8-bit indices look like ordinary ones)
+    if (c.payload == 9 || c.payload == 8) // the extreme-index class and the converting gathers mark their cases
         return true;
     for (auto i : c.idx)
         if (i < 0 || (uint64_t)i * (uint64_t)rb >= kRW)
@@ -302,6 +310,8 @@ static bool exec_far(Context& cx, const MemCase& c, const Target& tg, const xsv_
 {
     const int n = e->lanes;
     const int rb = kTypeBytes[oi.reg];
+    const int mb = kTypeBytes[oi.mem]; // memory element (differs from the lane for the converting forms)
+    const bool conv = oi.mem != oi.reg;
     if (!far_setup())
     {
         cx.st.cls("far_index_cases_skipped_no_address_space");
@@ -311,8 +321,8 @@ static bool exec_far(Context& cx, const MemCase& c, const Target& tg, const xsv_
     memset(out, 0xCD, sizeof out);
     std::vector<unsigned char*> pages;
     auto open_elem = [&](int64_t idx) {
-        unsigned char* a0 = g_far_center + idx * (int64_t)rb;
-        for (unsigned char* pg = (unsigned char*)((uintptr_t)a0 & ~(uintptr_t)4095); pg <= (unsigned char*)((uintptr_t)(a0 + rb - 1) & ~(uintptr_t)4095); pg += 4096)
+        unsigned char* a0 = g_far_center + idx * (int64_t)mb;
+        for (unsigned char* pg = (unsigned char*)((uintptr_t)a0 & ~(uintptr_t)4095); pg <= (unsigned char*)((uintptr_t)(a0 + mb - 1) & ~(uintptr_t)4095); pg += 4096)
             if (std::find(pages.begin(), pages.end(), pg) == pages.end())
             {
                 mprotect(pg, 4096, PROT_READ | PROT_WRITE);
@@ -330,6 +340,9 @@ static bool exec_far(Context& cx, const MemCase& c, const Target& tg, const xsv_
         memcpy(idximg + (size_t)i * rb, &v, rb);
         open_elem(c.idx[i]);
     }
+    if (conv && oi.kind == OpInfo::GATHER)
+        for (int i = 0; i < n; ++i) // source elements that the lane type can represent
+            gen_elem(oi.mem, oi.reg, 1 + (int)(c.seed % 2), mix64(c.seed * 977 + (uint64_t)c.idx[i]), g_far_center + c.idx[i] * (int64_t)mb);
     xsv_args a;
     memset(&a, 0, sizeof a);
     a.in[1] = idximg;
@@ -372,7 +385,14 @@ static bool exec_far(Context& cx, const MemCase& c, const Target& tg, const xsv_
         for (int i = 0; ok && i < n; ++i)
         {
             cx.st.lane_checks++;
-            const unsigned char* src = g_far_center + c.idx[i] * (int64_t)rb;
+            const unsigned char* src = g_far_center + c.idx[i] * (int64_t)mb;
+            unsigned char cvt[8];
+            if (conv)
+            {
+                if (!convert_elem(oi.mem, oi.reg, src, cvt))
+                    continue; // not representable in the lane type: outside the claim
+                src = cvt;
+            }
             if (memcmp(out + (size_t)i * rb, src, rb))
             {
                 ok = false;
@@ -385,10 +405,20 @@ static bool exec_far(Context& cx, const MemCase& c, const Target& tg, const xsv_
     }
     else
     {
+        unsigned char mimg[512]; // what each lane must leave in memory
+        bool judged[64];
         for (int i = 0; i < n; ++i)
         {
             uint64_t v = mix64(c.seed * 131 + i) | 1;
             memcpy(img + (size_t)i * rb, &v, rb);
+            judged[i] = true;
+            if (conv)
+            {
+                gen_elem(oi.reg, oi.mem, 1 + (int)(c.seed % 2), mix64(c.seed * 977 + i), img + (size_t)i * rb);
+                judged[i] = convert_elem(oi.reg, oi.mem, img + (size_t)i * rb, mimg + (size_t)i * mb);
+            }
+            else
+                memcpy(mimg + (size_t)i * mb, img + (size_t)i * rb, mb);
         }
         a.in[0] = img;
         a.out[0] = g_far_center;
@@ -403,11 +433,11 @@ static bool exec_far(Context& cx, const MemCase& c, const Target& tg, const xsv_
                 memcpy(want + k, &w, 8);
             }
             for (int i = 0; i < n; ++i)
-                for (int b = 0; b < rb; ++b)
+                for (int b = 0; b < mb; ++b)
                 {
-                    unsigned char* ad = g_far_center + c.idx[i] * (int64_t)rb + b;
+                    unsigned char* ad = g_far_center + c.idx[i] * (int64_t)mb + b;
                     if (ad >= pages[pi] && ad < pages[pi] + 4096)
-                        want[ad - pages[pi]] = img[(size_t)i * rb + b];
+                        want[ad - pages[pi]] = judged[i] ? mimg[(size_t)i * mb + b] : *ad; // an unrepresentable lane may store anything
                 }
             cx.st.lane_checks++;
             if (memcmp(want, pages[pi], 4096))
@@ -952,8 +982,9 @@ int main(int argc, char** argv)
             if (oi.kind == OpInfo::NONE)
                 continue;
             const bool conv = oi.mem != oi.reg;
-            if ((prop == "C06") != conv)
-                continue; // converting loads/stores are reported under C06
+            const bool gs = oi.kind == OpInfo::GATHER || oi.kind == OpInfo::SCATTER;
+            if (gs ? prop == "C06" : (prop == "C06") != conv)
+                continue; // converting loads/stores are reported under C06; gather/scatter (converting or not) under C04
             cx.st.per_target[tg.name]++;
             const int n = e->lanes;
             const uint64_t align = target_alignment(tg, t == C32 ? "f32" : (t == C64 ? "f64" : e->type));
@@ -976,6 +1007,45 @@ int main(int argc, char** argv)
                 places.push_back({ 4096 - fp / 2 - (fp / 2) % estep, "across_page_boundary" });
                 places.push_back({ 0, "at_lower_guard" });
                 places.push_back({ kRW - fp, "at_upper_guard" });
+            }
+            if ((oi.kind == OpInfo::GATHER || oi.kind == OpInfo::SCATTER) && oi.mem != oi.reg)
+            {
+                // converting forms: every case runs inside the address-space reservation (payload class 8), the base pointer in its
+                // middle, so negative indices are as legal as positive ones
+                const int bits = 8 * kTypeBytes[oi.reg];
+                const int64_t big = bits == 64 ? ((int64_t)1 << 32) - 9 : (((int64_t)1 << (bits - 1)) - 1);
+                for (int shape = 0; shape < 8; ++shape)
+                    for (long rep = 0; rep < std::max<long>(1, budget / 4); ++rep)
+                    {
+                        std::vector<int64_t> v(n);
+                        for (int i = 0; i < n; ++i)
+                        {
+                            const int64_t r = (int64_t)(mix64(s0 + (uint64_t)shape * 131 + (uint64_t)rep * 7919 + (uint64_t)i) >> 20);
+                            switch (shape)
+                            {
+                            case 0: v[i] = i; break;
+                            case 1: v[i] = n - 1 - i; break;
+                            case 2: v[i] = -(int64_t)(i + 1); break;
+                            case 3: v[i] = (i & 1) ? -(int64_t)(3 * i + 1) : (int64_t)(2 * i); break;
+                            case 4: v[i] = (r % 2000001) - 1000000 + (int64_t)i * 2000003; break; // distinct by construction
+                            case 5: v[i] = big - (int64_t)i * 5; break;
+                            case 6: v[i] = -big + (int64_t)i * 3; break;
+                            default: v[i] = (i % 2) ? big - i : -big + i; break;
+                            }
+                        }
+                        MemCase c;
+                        c.op = op;
+                        c.type = t;
+                        c.idx = v;
+                        c.imm = 0;
+                        c.payload = 8;
+                        c.seed = s0 + 900 + (uint64_t)shape * 17 + (uint64_t)rep;
+                        c.offset = 0;
+                        c.place = "converting_indices";
+                        note_case(cx, c, true);
+                        exec_case(cx, c, tg, e);
+                    }
+                continue;
             }
             if (oi.kind == OpInfo::GATHER || oi.kind == OpInfo::SCATTER)
             {
